@@ -154,16 +154,16 @@ theorem oncancel_list_always_empty (ops : List Op) (ctx : Ctx)
 /-! ### non-vacuity: concrete instances (kernel-evaluated) -/
 
 /-- probe app 0 (guest keys 0,1), HTTP app with a probe handler (key 0) and a reverse proxy (4) -/
-def exA : Cfg := ⟨0, [⟨0, 1⟩], [⟨0, 1, 0, [0], [⟨0, 0⟩, ⟨0, 1⟩]⟩, ⟨3, 2, 0, [1], [⟨0, 0⟩, ⟨0, 4⟩]⟩]⟩
+def exA : Cfg := ⟨0, [⟨0, 1⟩], [⟨0, 1, 0, [0], [⟨0, 0⟩, ⟨0, 1⟩]⟩, ⟨3, 2, 0, [1], [⟨0, 0⟩, ⟨0, 4⟩]⟩], ⟨0, 0⟩⟩
 /-- a config whose second guest of app 1 fails to provision -/
-def exB : Cfg := ⟨0, [], [⟨0, 5, 0, [2], [⟨0, 2⟩]⟩, ⟨1, 6, 0, [], [⟨0, 3⟩, ⟨3, 3⟩]⟩]⟩
+def exB : Cfg := ⟨0, [], [⟨0, 5, 0, [2], [⟨0, 2⟩]⟩, ⟨1, 6, 0, [], [⟨0, 3⟩, ⟨3, 3⟩]⟩], ⟨0, 0⟩⟩
 /-- a config whose app 1 fails in Start after app 0 started -/
-def exC : Cfg := ⟨0, [], [⟨0, 5, 0, [2], [⟨0, 2⟩]⟩, ⟨1, 6, 5, [], []⟩]⟩
+def exC : Cfg := ⟨0, [], [⟨0, 5, 0, [2], [⟨0, 2⟩]⟩, ⟨1, 6, 5, [], []⟩], ⟨0, 0⟩⟩
 def exE : Env := ⟨true, false, 0, [], [0, 1, 3], [0, 1, 3]⟩
 /-- healthy, but the post-start step will fail -/
-def exD : Cfg := ⟨0, [], [⟨0, 5, 0, [2], [⟨0, 2⟩]⟩, ⟨1, 6, 0, [], []⟩]⟩
+def exD : Cfg := ⟨0, [], [⟨0, 5, 0, [2], [⟨0, 2⟩]⟩, ⟨1, 6, 0, [], []⟩], ⟨0, 0⟩⟩
 /-- its reverse proxy to upstream 4 (shared with exA) fails before setting up its upstreams -/
-def exF : Cfg := ⟨0, [], [⟨3, 9, 0, [], [⟨3, 4⟩]⟩]⟩
+def exF : Cfg := ⟨0, [], [⟨3, 9, 0, [], [⟨3, 4⟩]⟩], ⟨0, 0⟩⟩
 def exOps : List Op := [.load exA exE, .load exB exE, .load exC exE, .validate exB exE,
   .load exD ⟨true, true, 0, [], [0, 1], [0, 1]⟩, .load exF exE, .load exD ⟨true, false, 2, [], [0, 1], [0, 1]⟩]
 
